@@ -526,6 +526,10 @@ impl KotoVm {
         self.registers.push(lhs);
         self.registers.push(rhs);
 
+        // The position of the LHS in the value stack, used by compound assignments,
+        // see get_compound_assign_op_result.
+        let lhs_index = self.register_index(lhs_register);
+
         match op {
             BinaryOp::Add | BinaryOp::AddRhs => {
                 self.run_add(result_register, lhs_register, rhs_register)?
@@ -547,27 +551,51 @@ impl KotoVm {
             }
             BinaryOp::AddAssign => {
                 self.run_add_assign(lhs_register, rhs_register)?;
-                self.set_register(result_register, self.clone_register(lhs_register));
+                return self.get_compound_assign_op_result(
+                    old_frame_count,
+                    result_register,
+                    lhs_index,
+                );
             }
             BinaryOp::SubtractAssign => {
                 self.run_subtract_assign(lhs_register, rhs_register)?;
-                self.set_register(result_register, self.clone_register(lhs_register));
+                return self.get_compound_assign_op_result(
+                    old_frame_count,
+                    result_register,
+                    lhs_index,
+                );
             }
             BinaryOp::MultiplyAssign => {
                 self.run_multiply_assign(lhs_register, rhs_register)?;
-                self.set_register(result_register, self.clone_register(lhs_register));
+                return self.get_compound_assign_op_result(
+                    old_frame_count,
+                    result_register,
+                    lhs_index,
+                );
             }
             BinaryOp::DivideAssign => {
                 self.run_divide_assign(lhs_register, rhs_register)?;
-                self.set_register(result_register, self.clone_register(lhs_register));
+                return self.get_compound_assign_op_result(
+                    old_frame_count,
+                    result_register,
+                    lhs_index,
+                );
             }
             BinaryOp::RemainderAssign => {
                 self.run_remainder_assign(lhs_register, rhs_register)?;
-                self.set_register(result_register, self.clone_register(lhs_register));
+                return self.get_compound_assign_op_result(
+                    old_frame_count,
+                    result_register,
+                    lhs_index,
+                );
             }
             BinaryOp::PowerAssign => {
                 self.run_power_assign(lhs_register, rhs_register)?;
-                self.set_register(result_register, self.clone_register(lhs_register));
+                return self.get_compound_assign_op_result(
+                    old_frame_count,
+                    result_register,
+                    lhs_index,
+                );
             }
             BinaryOp::Less => self.run_less(result_register, lhs_register, rhs_register)?,
             BinaryOp::LessOrEqual => {
@@ -584,6 +612,29 @@ impl KotoVm {
         }
 
         self.get_overridden_op_result(old_frame_count, result_register)
+    }
+
+    // The result of a compound assignment is the (modified) LHS, the result of an overridden
+    // operator (e.g. `@+=`) is discarded.
+    //
+    // If the operator was overridden by a Koto function then its frame has been pushed,
+    // and needs to be run to completion before the LHS register can be read again.
+    fn get_compound_assign_op_result(
+        &mut self,
+        old_frame_count: usize,
+        result_register: u8,
+        lhs_index: usize,
+    ) -> Result<KValue> {
+        if self.call_stack.len() > old_frame_count {
+            self.frame_mut().execution_barrier = true;
+            if let Err(error) = self.execute_instructions() {
+                self.pop_frame(KValue::Null)?;
+                return Err(error);
+            }
+        }
+        let lhs = self.registers[lhs_index].clone();
+        self.truncate_registers(result_register);
+        Ok(lhs)
     }
 
     /// Provides the result of running a read operation (i.e. access or index) on a pair of values
